@@ -25,7 +25,7 @@ pub fn check(id: &'static str) -> Check {
         (
             "one recorded episode = a generated single-threaded plan (15-60 ops: set/del/get with entries below and above the 8 KiB write buffer, merge passes, reopen cycles, small max_file_size so that rollovers and multi-file merge outputs occur) executed on the real store with every file-system call on the store directory logged. One evaluation = one kill point: for EVERY prefix of the logged directory-changing calls (create, write, unlink) the directory is rebuilt from the log, opened with the real code and every key read: each must equal the map model of the operations acknowledged before the kill, the single in-flight operation's key may read either way; then a continuation (set/overwrite/delete, close, reopen, read everything) must also agree. Exhaustive per recorded episode; episodes are sampled. Non-trivial/distinct = distinct (directory content hash, acknowledged prefix) states that were opened.",
             vec![
-                "a kill is modelled at file-system call boundaries (a single write call is atomic), as the property states",
+                "a kill is modelled at file-system call boundaries (a single write call is atomic), as the property states; in a quarter of the episodes the shim completes half of the writes of two or more bytes only partly (a legal short count), so that the boundary inside an entry exists as a kill point",
                 "the shim sees every call that changes the directory: checked after each recording by replaying the log into a model and comparing it byte for byte with the real directory (mismatch = inconclusive)",
                 "single-threaded episodes, so the acknowledged set at a kill point is unambiguous",
             ],
@@ -292,8 +292,19 @@ fn episode(ctx: &Ctx, case: u64, out: &mut Out) {
     };
     let plan = gen_plan(&mut r, &opts);
     let dir = fresh_dir(&ctx.scratch, &format!("c{}", case));
+    // in a quarter of the episodes the file system completes half of the larger writes only partly (a
+    // legal short count): write_all comes back with the rest, and the boundary between the two
+    // calls is a kill point at which an entry is in the file in part
+    let short = case % 4 == 3;
+    if short {
+        crate::shim::short_writes(500_000, Rng::derive(ctx.seed, 0xC03_5000_0000 ^ case).next_u64() | 1);
+    }
     let rec = run_recorded(&dir, &plan, true, |_| {});
+    crate::shim::short_writes(0, 0);
     out.count("episodes_recorded", 1);
+    if short {
+        out.count("episodes_with_short_writes", 1);
+    }
     if rec.open_err.is_some() || rec.results.iter().any(|x| x.is_err()) {
         // an operation failing without any fault is C01's subject, not a crash question
         out.count("episodes_skipped_op_failed", 1);
@@ -332,6 +343,11 @@ fn episode(ctx: &Ctx, case: u64, out: &mut Out) {
             }
         }
         let last = b.upto.map(|u| &rec.events[u]);
+        if let Some(l) = last {
+            if matches!(l.kind, K_WRITE | K_PWRITE) && l.result >= 0 && (l.result as u64) < l.b {
+                out.count("crash_points_with_an_entry_written_in_part", 1);
+            }
+        }
         let phase = phase_of(&plan, b.inflight, last);
         let expect = expectation(&plan, b);
         // which states to build at this point
